@@ -100,8 +100,12 @@ def judge_case(c):
     diverged = False    # once the replica differs it is no longer the replica of the property: stop judging the case
     memory = {}
     attached = False
+    raced = set()    # keys for which one command emitted several records: they are delivered by racing goroutines, and a
+                     # replica that applied them in the other order (Expire before Set: the deadline is dropped) stays wrong
     for i, s in enumerate(c["steps"]):
         stepno = i + 1
+        ks_ = [r[1] for r in (s.get("recs") or [])]
+        raced |= set(k for k in ks_ if ks_.count(k) >= 2)
         for k, (exp, val) in s["keys"].items():
             if val != "cold":
                 memory[k] = val
@@ -152,7 +156,7 @@ def judge_case(c):
             opn, msg = s["rerr"][0]
             sig = "%s/unappliable:%s" % (cmd, opn)
             keys_of_recs = [r[1] for r in (s["recs"] or [])]
-            if any(keys_of_recs.count(k) >= 2 for k in keys_of_recs):
+            if any(keys_of_recs.count(k) >= 2 for k in keys_of_recs) or any(k in raced for k in keys_of_recs):
                 # the records of one command are delivered by racing goroutines (e.g. Del then SAdd of SUNIONSTORE)
                 sig = "FEED/reordered"
             elif "UTF-8" in msg:
@@ -163,7 +167,7 @@ def judge_case(c):
             diverged = True
             k = new[0]
             sig = "%s/replica-%s" % (cmd, diff[k][0])
-            if len([r for r in (s["recs"] or []) if r[1] == k]) >= 2:
+            if len([r for r in (s["recs"] or []) if r[1] == k]) >= 2 or k in raced:
                 # several records for the key from one command: they are delivered by racing goroutines
                 sig = "FEED/reordered"
             out.append({"case": c["id"], "step": stepno, "signature": sig,
